@@ -40,7 +40,7 @@ func init() {
 			"plus missing/malformed bounds; distinct = shape hash (layout, placement, n, target, bound kind, offset class, forms, outcome); non-trivial = the SP took a decision",
 		Directed:   c05Directed,
 		Run:        c05Run,
-		MustHit:    []string{"delay_to_bound", "offset=0", "offset=+1ns", "offset=-1ns", "kind=sc-nooa", "kind=cond-nb", "kind=cond-nooa", "bad_bound", "conditions_element_absent", "bounds_centuries_away", "skewed_clock", "non_utc_location", "redelivery_after_expiry"},
+		MustHit:    []string{"delay_to_bound", "offset=0", "offset=+1ns", "offset=-1ns", "kind=sc-nooa", "kind=cond-nb", "kind=cond-nooa", "bad_bound", "conditions_element_absent", "bounds_centuries_away", "bound_at_the_first_instant_or_centuries_off", "session_not_on_or_after_set", "skewed_clock", "non_utc_location", "redelivery_after_expiry"},
 		RandomRuns: map[string]int{"quick": 8000, "thorough": 60000},
 		Assumptions: []string{
 			"RFC 3339 grey areas (leap seconds, lower-case t/z, hour 24) are not generated",
@@ -180,6 +180,29 @@ func c05Run(r *core.Run) {
 			}
 		}
 		r.Probe("bounds_centuries_away")
+	} else if ext >= 4 && ext <= 5 && !(offIdx >= 1 && offIdx <= 5) {
+		// the other way round: expired (or not yet valid) by centuries, including the very first instant
+		// time.Time can hold, which is a real instant and not "no bound"
+		zero := []time.Time{{}, time.Date(1, 1, 1, 0, 0, 0, 1, time.UTC), time.Date(1601, 1, 1, 0, 0, 0, 0, time.UTC)}[t.Int(3, "c05.extreme.zero")]
+		i := t.Int(len(bs), "c05.extreme.which")
+		if ext == 4 {
+			switch t.Int(2, "c05.extreme.side") {
+			case 0:
+				bs[i].sc = zero
+			default:
+				bs[0].cnooa = zero
+			}
+		} else {
+			bs[0].nb = time.Date(9000, 1, 1, 0, 0, 0, 0, time.UTC)
+		}
+		r.Probe("bound_at_the_first_instant_or_centuries_off")
+	}
+	// the IdP session may end earlier than the assertion's validity (AuthnStatement SessionNotOnOrAfter):
+	// that is session information, not part of the validity window
+	if sn := t.Int(5, "c05.session"); sn >= 1 && m.Assertions[0].Authn != nil {
+		v := []time.Time{issueAt.Add(8 * time.Hour), issueAt.Add(-time.Hour), issueAt, issueAt.Add(30 * time.Second)}[sn-1]
+		m.Assertions[0].Authn.SessionNotOnOrAfter = strp(world.RenderInstant(v, world.InstantForm{}))
+		r.Probe("session_not_on_or_after_set")
 	}
 	for i, a := range m.Assertions {
 		a.NotBefore = strp(world.RenderInstant(bs[i].nb, fs[i]))
